@@ -39,7 +39,7 @@ RULE = ("Hypothesis draws a netgen.grid recipe (1-3 voltage levels, <=12 buses, 
         "or a loop; distinct by case hash.")
 ASSUMPTIONS = [
     "power flow (runpp, calculate_voltage_angles=True, trafo_model 't', tolerance 1e-10 p.u.) is the trusted source of the true state; "
-    "collapsed power-flow solutions (a bus outside 0.5..1.5 p.u.) are skipped",
+    "collapsed power-flow solutions (a bus or a trafo3w star point outside 0.5..1.5 p.u.) are skipped",
     "bus p/q measurements exclude shunt and ward-impedance power (these belong to the estimator's network model, cf. "
     "estimation/util.py:remove_shunt_injection_from_meas); load reference system as documented in create_measurement",
     "all buses of a fused node (closed zero-impedance bus-bus switches) are measured together when one of them gets a p/q measurement "
@@ -47,13 +47,21 @@ ASSUMPTIONS = [
     "xward (internal PV bus cannot be measured) and dcline are not generated; v/p/q bus measurements only at energized buses; current "
     "magnitude measurements only at terminals carrying >= 0.1 % of the level's current scale (|I| is not differentiable at 0)",
     "std_dev within a factor 25 of a common relative accuracy: wildly unbalanced weights together with current-magnitude measurements "
-    "give WLS local minima (theory, not a defect)",
+    "give WLS local minima (theory, not a defect); the same bound decides whether zero_injection = bus list / 'no_inj_bus' is used "
+    "with wls / irwls: the declaration is a virtual measurement with sigma 0.001 p.u. (= 0.001 * sn_mva MW), used only if that is "
+    "<= 5 % of the MVA scale of the lowest declared level, otherwise the case runs with zero_injection='aux_bus' and measures every bus",
     "non-convergence is a failure, except from a start that is far from an extreme operating point (|vm-1| > 0.1 or a branch loaded "
     "> 100 %: init='flat', or auxiliary buses that estimate always starts flat) and the documented rejection of wls_with_zero_constraint "
-    "without zero-injection bus",
+    "without zero-injection bus; init='results' without auxiliary buses is the exact state, so non-convergence from it is always a failure (signature "
+    "results-init-dc-angles/not-successful when a phase-shifting branch makes estimate replace the result angles by DC angles)",
+    "the signature of a failure names the input class: precondition of an open defect (auxiliary buses with irwls / zero "
+    "constraint / z_base >= 10 kOhm; flat start with current magnitudes) and / or shape of a repaired defect (side as bus index, "
+    "trafo3w terminal out of service, zero constraint with sn_mva != 1, phase shift without DC start), joined by '+' when both "
+    "apply; the repaired shapes only exist to give a regression of a repair its own signature",
     "tolerances: vm 2e-6 p.u., va 2e-4 degree, flows 1e-5 MVA*max(1,sn/100) + 1e-6 relative + short-circuit power of the branch * 4e-6 "
     "(state tolerance of the estimator is 1e-6)",
-    "chi2_analysis only when distinct live measurements > 2*(upper bound of the number of internal buses) (>=1 degree of freedom); "
+    "chi2_analysis only when distinct live measurements > 2*(upper bound of the number of internal buses) (>=1 degree of freedom) and "
+    "observability does not rest on the zero_injection option of estimate (sparse injection core), which the bad-data functions lack; "
     "remove_bad_data additionally only for the full measurement set on islands with >= 2 nodes (normalised residuals are undefined for critical measurements)",
 ]
 
@@ -126,8 +134,9 @@ def _case(draw, tier):
     if alg == "wls_with_zero_constraint":
         if draw(st.integers(0, 3)):
             zi = "list"            # otherwise mostly rejected ("no bus with zero injections")
-        if draw(st.integers(0, 5)):
-            recipe["sn_mva"] = 1.0  # known finding: the constraint residual is scaled with baseMVA (diverges for sn_mva != 1)
+        if draw(st.integers(0, 5)) >= 3:
+            recipe["sn_mva"] = 1.0  # half of the cases; the other half keeps the drawn sn_mva (repaired defect: the constraint
+            #                         residual was scaled with baseMVA and the iteration diverged for sn_mva != 1)
     opt = {"algorithm": alg, "init": draw(st.sampled_from(["flat", "flat", "flat", "results", "results"])),
            "tolerance": draw(st.sampled_from([1e-6, 1e-6, 1e-8])), "zero_injection": zi}
     plan = {"core": draw(st.sampled_from(["inj", "inj", "flow", "flow", "flow"])),
@@ -174,7 +183,9 @@ class Truth:
         vm = net.res_bus.vm_pu
         self.buses = [b for b in net.bus.index if not math.isnan(_f(vm.at[b]))]
         self.alive = set(self.buses)
-        self.node = oracles.fused_nodes(net)
+        # plain ints: oracles.UF path compression can leave numpy integers as representatives, and comparing those with the
+        # ("t3", idx) star-point vertices below is an element-wise numpy comparison (ValueError: truth value of an array)
+        self.node = {b: int(v) for b, v in oracles.fused_nodes(net).items()}
         # injections (load reference) of the non-shunt bus elements
         inj = {b: 0j for b in net.bus.index}
         self.has_inj = set()
@@ -509,6 +520,21 @@ def _success(r):
 # ---------------------------------------------------------------------------------------------------------
 
 def check(case):
+    """_check plus one differential: a failure of a case whose branch sides are given as bus indices is attributed to that shape
+    (a repaired defect) only if it disappears when the sides are given as 'from'/'to'/'hv'/'mv'/'lv' - the documentation declares
+    both forms equivalent.  Otherwise the failures of the string-side run are reported (their signature names the real class)."""
+    res = _check(case)
+    if res.failures and case["plan"].get("side_as_bus"):
+        c2 = copy.deepcopy(case)
+        c2["plan"]["side_as_bus"] = False
+        res2 = _check(c2)
+        if res2.failures:
+            res.failures = list(res2.failures)
+            res.label("side-as-bus-not-the-cause")
+    return res
+
+
+def _check(case):
     import pandapower as pp
     from pandapower.estimation import estimate, chi2_analysis, remove_bad_data
     res = Result()
@@ -529,6 +555,23 @@ def check(case):
     if any(not 0.5 <= float(net.res_bus.vm_pu.at[b]) <= 1.5 for b in T.buses):
         res.skipped = "pf-degenerate-solution"       # collapsed low-voltage solution of the power flow (vm ~ 0): no meaningful truth
         return res
+    if len(net.trafo3w) and "vm_internal_pu" in net.res_trafo3w:
+        # the star point of a three-winding transformer is a bus of the model as well (seen: vm_internal_pu = 2e-19)
+        if any(v == v and not 0.5 <= v <= 1.5 for v in (_f(x) for x in net.res_trafo3w.vm_internal_pu.values)):
+            res.skipped = "pf-degenerate-solution"
+            return res
+    if opt["zero_injection"] in ("list", "no_inj_bus") and opt["algorithm"] != "wls_with_zero_constraint":
+        # declared zero-injection buses become virtual p/q measurements with a hard-coded sigma of 0.001 p.u. = 0.001 * sn_mva MW
+        # (ppc_conversion.py:ZERO_INJECTION_STD_DEV; it also replaces the std_dev of a real p/q measurement at such a bus).
+        # The declaration is used only where that sigma lies within the std_dev range this generator draws for a real
+        # measurement at the bus (<= 5 x 1 % of the level's MVA scale, see ASSUMPTIONS "std_dev within a factor 25"): with
+        # sn_mva = 1000 the "measurement" at a 0.4 kV bus has sigma 1 MW and the voltage of a weakly connected bus runs away
+        # from a flat start (seen: 9 buses without load, 50 iterations; 1 iteration from the results; converges for sn_mva <= 15).
+        # wls_with_zero_constraint uses hard constraints, no sigma.
+        declared = [b for b in T.buses if T.node[b] not in T.has_inj]
+        if declared and 0.001 * sn > 5.0 * PQ_STD_REL * min(T.level_scale(b)[0] for b in declared):
+            opt = dict(opt, zero_injection="aux_bus")
+            res.label("zi-declaration-too-weak->aux_bus")
     rows, info = build_rows(net, T, plan, opt, res)
     base = copy.deepcopy(net)           # solved network without measurements
     sab = bool(plan["side_as_bus"])
@@ -542,35 +585,65 @@ def check(case):
     has_i = any(r["mt"] == "i" for r in rows)
     t3_out_measured = any(r["et"] == "trafo3w" and r["el"] in T.t3_side_out for r in rows)
     alg, init = opt["algorithm"], opt["init"]
-    # root-cause class of a failure: the first applicable fact about the input (specific shapes first)
-    no_dc_init = False
-    if (init == "flat" or T.n_aux > 0) and not (net.trafo.shift_degree.values != 0).any():
-        # estimate() starts the angles from a DC power flow only if a two-winding transformer has shift_degree != 0
-        for idx in net.trafo3w.index[net.trafo3w.in_service.values.astype(bool)]:
-            if net.trafo3w.at[idx, "shift_mv_degree"] != 0 or net.trafo3w.at[idx, "shift_lv_degree"] != 0:
-                no_dc_init = True
-        if "tap_step_degree" in net.trafo.columns:
-            for idx in net.trafo.index[net.trafo.in_service.values.astype(bool)]:
-                d = _nz(net.trafo.at[idx, "tap_step_degree"]) * (_nz(net.trafo.at[idx, "tap_pos"]) - _nz(net.trafo.at[idx, "tap_neutral"]))
-                if abs(d) > 20.0:
-                    no_dc_init = True
+    # root-cause class of a failure = facts about the input: the precondition of a defect that is still open (known finding) and /
+    # or the shape of a REPAIRED defect, joined with "+" when both apply.  The repaired shapes are kept only so that a regression
+    # of a repair gets its own (unlisted) signature.  They must not stand alone when the input also meets the precondition of an
+    # open defect, otherwise that defect is reported under the name of a repaired one (seen: "side-as-bus/not-successful" was
+    # flat start + current magnitude, same outcome with sides given as strings; "t3-terminal-oos/not-successful" and
+    # "phase-shift-no-dc-init/not-successful" were irwls with auxiliary buses: cond(G) 5e16, 3 iterations with virtual sigma 1e-4);
+    # and the open class must not swallow the repaired shape either (a regression of the trafo3w repair at 110 kV / 1 MVA would be
+    # listed as aux-bus-virtual-sigma/wrong-estimate).  Only combinations whose witness was traced to the open defect are listed.
+    tap_shift = 0.0
+    if "tap_step_degree" in net.trafo.columns:
+        for idx in net.trafo.index[net.trafo.in_service.values.astype(bool)]:
+            d = _nz(net.trafo.at[idx, "tap_step_degree"]) * (_nz(net.trafo.at[idx, "tap_pos"]) - _nz(net.trafo.at[idx, "tap_neutral"]))
+            tap_shift = max(tap_shift, abs(d))
+    t2_shift = bool(len(net.trafo)) and bool(((net.trafo.shift_degree.values != 0) & net.trafo.in_service.values.astype(bool)).any())
+    t3_shift = any(net.trafo3w.at[idx, "shift_mv_degree"] != 0 or net.trafo3w.at[idx, "shift_lv_degree"] != 0
+                   for idx in net.trafo3w.index[net.trafo3w.in_service.values.astype(bool)])
+    # repaired: estimate() started the angles from a DC power flow only if a two-winding transformer had shift_degree != 0
+    no_dc_init = ((init == "flat" or T.n_aux > 0) and not (net.trafo.shift_degree.values != 0).any()
+                  and (t3_shift or tap_shift > 20.0))
+    # estimate(init="results") overwrites the angles of res_bus with those of a DC power flow as soon as one branch shifts the
+    # phase (ppc_conversion.py:_init_ppc): the start is not the given state but far from it in an extreme operating point.
+    # Only used for the signature of a non-convergence in such a state (see run_est), not a class of its own.
+    results_dc_angles = init == "results" and (t2_shift or t3_shift or tap_shift > 0.0)
+    # estimate() runs the DC power flow that initialises the angles only if the model has a phase-shifting branch: with a slack
+    # angle far from 0 (ext_grid.va_degree) and no such branch (in service, terminal buses in service), a flat start - and the
+    # auxiliary buses, which always start flat - are that far away from the reference
+    bus_is = net.bus.in_service
+    model_shift = any(net.trafo.at[i, "in_service"] and bus_is.at[net.trafo.at[i, "hv_bus"]] and bus_is.at[net.trafo.at[i, "lv_bus"]]
+                      and (net.trafo.at[i, "shift_degree"] != 0 or
+                           _nz(net.trafo.at[i, "tap_step_degree"] if "tap_step_degree" in net.trafo.columns else 0.0)
+                           * (_nz(net.trafo.at[i, "tap_pos"]) - _nz(net.trafo.at[i, "tap_neutral"])) != 0)
+                      for i in net.trafo.index) or \
+        any(net.trafo3w.at[i, "in_service"] and bus_is.at[net.trafo3w.at[i, "hv_bus"]]
+            and (net.trafo3w.at[i, "shift_mv_degree"] != 0 or net.trafo3w.at[i, "shift_lv_degree"] != 0) for i in net.trafo3w.index)
+    slack_angle = max([abs(_nz(net.ext_grid.at[i, "va_degree"])) for i in net.ext_grid.index
+                       if net.ext_grid.at[i, "in_service"] and net.ext_grid.at[i, "bus"] in T.alive] + [0.0])
+    slack_angle_flat = (init == "flat" or T.n_aux > 0) and slack_angle >= 20.0 and not model_shift
     zbase = max(float(net.bus.vn_kv.at[b]) ** 2 for b in T.buses) / sn
-    if sab and has_branch_rows:
-        fsig = "side-as-bus"
-    elif t3_out_measured:
-        fsig = "t3-terminal-oos"
-    elif alg == "wls_with_zero_constraint" and sn != 1.0:
-        fsig = "zero-constraint-sn!=1"
-    elif no_dc_init:
-        fsig = "phase-shift-no-dc-init"
-    elif T.n_aux > 0 and (alg in ("irwls", "wls_with_zero_constraint") or zbase >= 1e4):
+    if T.n_aux > 0 and (alg in ("irwls", "wls_with_zero_constraint") or zbase >= 1e4):
         # virtual zero-injection measurements of auxiliary buses: sigma = 1e-6 p.u. hard coded (wls clamps it to 1e-5): the gain
         # matrix becomes numerically singular when the p.u. admittances are large (z_base = vn^2 / sn_mva >= 10 kOhm for wls)
-        fsig = "aux-bus-virtual-sigma"
+        open_cls = "aux-bus-virtual-sigma"
     elif init == "flat" and has_i:
-        fsig = "flat+i-meas"
+        open_cls = "flat+i-meas"
     else:
-        fsig = "plain"
+        open_cls = None
+    if sab and has_branch_rows:
+        repaired_cls = "side-as-bus"
+    elif t3_out_measured:
+        repaired_cls = "t3-terminal-oos"
+    elif alg == "wls_with_zero_constraint" and sn != 1.0:
+        repaired_cls = "zero-constraint-sn!=1"
+    elif no_dc_init:
+        repaired_cls = "phase-shift-no-dc-init"
+    elif slack_angle_flat:
+        repaired_cls = "slack-angle-no-dc-init"
+    else:
+        repaired_cls = None
+    fsig = "+".join(c for c in (open_cls, repaired_cls) if c) or "plain"
     shape = fsig != "plain"
 
     def sig(coarse, fine):
@@ -641,6 +714,10 @@ def check(case):
                 # or auxiliary buses (open switch / out-of-service terminal), which estimate always starts at 1 p.u. / 0 degree.
                 # False is a documented return value.
                 return "skip", "not-converged:stressed-state"
+            if stressed and results_dc_angles:
+                # the documented start (the exact state in res_bus) was not used: angles replaced by a DC power flow
+                return "fail", ("results-init-dc-angles/not-successful",
+                                {"returned": repr(r)[:200], "loading": loading, "vmdev": vmdev, "alg": alg})
             return "fail", (sig("not-successful", "not-successful/%s/%s" % (alg, init)),
                             {"returned": repr(r)[:200], "loading": loading, "vmdev": vmdev})
         return "ok", None
@@ -733,7 +810,10 @@ def check(case):
     nb_upper = len(T.buses) + len(T.stars) + T.n_aux
     dof_ok = len(slots) > 2 * nb_upper
     bad = case.get("bad_data")
-    if bad and dof_ok and not (sab and has_branch_rows):
+    # chi2_analysis / remove_bad_data have no zero_injection argument: an injection core that leaves out the injection-free
+    # buses is observable only together with the zero_injection declaration passed to estimate(), not for these two functions
+    # (seen: chi2_analysis -> estimate unsuccessful after 1 iteration (singular gain matrix) -> AttributeError in perform_chi2_test)
+    if bad and dof_ok and not (sab and has_branch_rows) and not info["sparse_nodes"]:
 
         def fresh():
             n = copy.deepcopy(base)
